@@ -304,6 +304,26 @@ def sockBuffer (w : World) (h : Nat) (i : Nat) (seq : Nat) (seg : Seg) : Bool ×
   let w := w.setHost h (fun hs => { hs with socks := setAt hs.socks i (fun s => { s with buf := buf', recvSeq := rs' }) })
   (rst, w.setChan s.chan (fun c => { c with items := items' }))
 
+/-- connected-peer filter of a UDP socket. -/
+def filterOk (b : UdpBind) (src : Addr) : Bool :=
+  match b.target with
+  | some t => addrMatches t src
+  | none => true
+
+/-- `Udp::receive_from_network`: the datagram is queued on the socket bound to the destination
+    port, provided its connected-peer filter and its bind address accept it and its queue has room;
+    otherwise it is dropped (the tag says why) and nothing changes. -/
+def udpReceiveAt (cap : Nat) (hs : Host) (bi : Nat) (b : UdpBind) (src dst : Addr) (p : Hex) : Host × String :=
+  if filterOk b src = false then (hs, "udpfilter")
+  else if addrMatches b.bindAddr dst = false then (hs, "udpnomatch")
+  else if cap ≤ b.queue.length then (hs, "udpfull")
+  else ({ hs with udp := setAt hs.udp bi (fun b => { b with queue := b.queue ++ [(p, src)] }) }, "")
+
+def udpReceive (cap : Nat) (hs : Host) (src dst : Addr) (p : Hex) : Host × String :=
+  match hs.udp.findIdx? (fun b => b.port == dst.port) with
+  | none => (hs, "udpnobind")
+  | some bi => udpReceiveAt cap hs bi (hs.udp.getD bi default) src dst p
+
 /-- `Host::receive_from_network`. Returns `true` when the caller must reply with a RST. -/
 def receive (w : World) (h : Nat) (e : Env) : Bool × World :=
   let hs := w.host! h
@@ -327,15 +347,9 @@ def receive (w : World) (h : Nat) (e : Env) : Bool × World :=
     | none => (true, w.tag "rstnosock")
   | .rst => (false, (w.removeSock h e.dst e.src).tag "rstrecv")
   | .udp p =>
-    match hs.udp.findIdx? (fun b => b.port == e.dst.port) with
-    | none => (false, w.tag "udpnobind")
-    | some bi =>
-      let b := hs.udp.getD bi default
-      let okT := match b.target with | some t => addrMatches t e.src | none => true
-      if !okT then (false, w.tag "udpfilter")
-      else if !addrMatches b.bindAddr e.dst then (false, w.tag "udpnomatch")
-      else if b.queue.length ≥ w.cfg.udpCap then (false, w.tag "udpfull")
-      else (false, w.setHost h (fun hs => { hs with udp := setAt hs.udp bi (fun b => { b with queue := b.queue ++ [(p, e.src)] }) }))
+    let (hs', t) := udpReceive w.cfg.udpCap hs e.src e.dst p
+    let w := w.setHost h (fun _ => hs')
+    (false, if t.isEmpty then w else w.tag t)
 
 /-- Deliver one loopback message on host `h` (the spawned task's body). -/
 def loReceive (w : World) (h : Nat) (e : Env) : World :=
